@@ -508,6 +508,8 @@ func chainCases(w *emit.Writer, g *gen, n int) {
 		}
 		class := "RSingle"
 		switch {
+		case strings.HasPrefix(p, "hang:"):
+			class = "RHang"
 		case p != "":
 			class = "RPanic"
 		case hclass == "RDouble":
